@@ -208,6 +208,28 @@ func Backrefs(quick bool) Family {
 	return Family{Name: "backref", Defs: defs, Alphabet: []string{"a", "b", ".", "(", "!", "\\", "1", "x"}, MaxLen: lenFor(quick, 4, 5)}
 }
 
+// BackrefNested: a state entered with captures that runs nested capturing Push/Pop pairs and then
+// evaluates its own back-reference again (inputs long enough to get there and back).
+func BackrefNested(quick bool) Family {
+	var defs []m.Def
+	for _, enter := range []string{`(a)`, `(a)(x?)`, `(a|\.)`} {
+		for _, inner := range []string{`x(.)`, `x(.)(.)`, `x`} {
+			for _, ref := range []string{`\1`, `\1\1`, `e\1`} {
+				defs = append(defs, m.Def{
+					"Root": {push("Enter", enter, "S"), r("Any", `(?s:.)`)},
+					"S":    {pop("End", `!`), r("Ref", ref), push("Again", inner, "S"), r("Other", `(?s:.)`)},
+				})
+				defs = append(defs, m.Def{
+					"Root": {push("Enter", enter, "S"), r("Any", `(?s:.)`)},
+					"S":    {r("Ref", ref), push("Sub", inner, "T"), pop("End", `!`), r("Other", `(?s:.)`)},
+					"T":    {pop("Back", `!`), push("Deeper", `(x)`, "T"), r("TAny", `(?s:.)`)},
+				})
+			}
+		}
+	}
+	return Family{Name: "backref-nested", Defs: defs, Alphabet: []string{"a", "x", ".", "!", "e"}, MaxLen: lenFor(quick, 6, 7)}
+}
+
 // Positions: rules whose matches span newlines and multi-byte runes (C04).
 func Positions(quick bool) Family {
 	menu := []m.Rule{r("NL", `\n`), r("Line", `[^\n]+`), r("Any", `(?s:.)`), r("Two", `(?s:..)`), r("CRLF", `\r\n`), r("Rune", `é|日`), r("ws", `[ \n]+`), r("Word", `[a日]+`), r("Cr", `\r`)}
@@ -269,7 +291,7 @@ func repeat(s string, n int) string {
 }
 
 func All(quick bool) []Family {
-	return []Family{Order(quick), Names(quick), Stack(quick), Includes(quick), Backrefs(quick), Positions(quick), JSONEscapes(quick), ErrSample(quick)}
+	return []Family{Order(quick), Names(quick), Stack(quick), Includes(quick), Backrefs(quick), Positions(quick), JSONEscapes(quick), ErrSample(quick), BackrefNested(quick)}
 }
 
 // Inputs enumerates every string over the alphabet up to maxLen.
